@@ -326,7 +326,9 @@ def _cycle_check(ctx: Ctx, c: Collector) -> None:
                 pred, delay = dec[1], dec[2]
                 tgt_ok = full_t[e.idx] == ("idx", ("idx", table, pred), simv)
                 val = e.term[2]
-                val_ok = val[0] == "tuple" and len(val[1]) == 2 and val[1][0] == delay and val[1][1][0] == "bag" and [x[1] for x in val[1][1][1]] == [pred, simv]
+                # (the witness path is only shown in the error message: a list [pred, sim] or any other structure that holds the two, e.g. a linked tuple)
+                val_ok = val[0] == "tuple" and len(val[1]) == 2 and val[1][0] == delay and (
+                    (val[1][1][0] == "bag" and [x[1] for x in val[1][1][1]] == [pred, simv]) or (T.contains((val[1][1],), pred) and T.contains((val[1][1],), simv)))
                 if not tgt_ok:
                     pr.append(f"seeding stores into {T.show(full_t[e.idx])} instead of descendants[pred][sim]")
                 if not val_ok:
@@ -402,6 +404,8 @@ def _cycle_check(ctx: Ctx, c: Collector) -> None:
                     pv = T.strip(pv)
                     if pv[0] == "op" and pv[1] == "+" and T.contains(pv, path) and T.contains(pv, srcv):
                         return True
+                    if pv[0] == "tuple" and T.contains((pv,), path) and T.contains((pv,), srcv):
+                        return True          # a linked representation (src, rest-of-path)
                     # [src, *path]
                     if pv[0] in ("bag", "tuple"):
                         els = [x[1] if pv[0] == "bag" else x for x in pv[1]]
